@@ -348,6 +348,130 @@ def rule_7(ctx):
     ctx.floor(3, 'signature preservation facts')
 
 
+def _same(a, b):
+    if a == b:
+        return True
+    try:
+        if isinstance(a, tuple) and isinstance(b, tuple) and len(a) == len(b):
+            return all(_same(x, y) for x, y in zip(a, b))
+        return isinstance(a, float) and isinstance(b, float) and a != a and b != b      # nan
+    except Exception:
+        return False
+
+
+def rule_9(ctx):
+    """Every registered function whose parameters are all declared numeric (XlNumber), called the way the evaluator calls it
+    (validate_args as written, casts of the value classes as written, then the body; numpy on floats by IEEE semantics): the same
+    value in every spelling - int, float, Number, numeric text plain / decimal / scientific, TRUE for 1, FALSE and blank for 0 -
+    gives the same outcome at every parameter position, and a non-numeric text gives #VALUE!."""
+    from . import values as V
+    from xlsa.guards import ExcRaised
+
+    def nodate(*a, **k):
+        raise ExcRaised(Ref('builtin:ValueError'))
+    models = {'ext:dateutil.parser.parse': nodate}
+    models.update(V.numpy_models())
+    decided, skipped = 0, []
+    for f in ctx.a.registry:
+        if not f.validated:
+            continue
+        pos = [p for p in f.params if p.kind == 'pos']
+        if not pos or len(pos) != len(f.params) or not all(p.annotation is not None and ast.unparse(p.annotation).endswith('XlNumber') for p in pos):
+            continue
+        req = [p for p in pos if p.default is None]
+
+        def outcome(args):
+            out = V.call(ctx, f.name, args, models=models)
+            return V.norm(out.value) if out.end == 'return' else (out.end, V.norm(out.value))
+        try:
+            refs = {v: outcome([V.num(v) for _ in req]) for v in (1, 0)}
+        except Unmodelled as exc:
+            skipped.append(f'{f.name} ({str(exc)[:40]})')
+            continue
+        decided += 1
+        wrong = []
+        for i, p in enumerate(req):
+            for v, spellings in ((1, [('the int 1', 1), ('the float 1.0', 1.0), ('the text "1"', V.text('1')), ('the text "1.0"', V.text('1.0')),
+                                      ('the text "1e0"', V.text('1e0')), ('TRUE', V.boolean(True)), ('the native True', True)]),
+                                 (0, [('the int 0', 0), ('the text "0"', V.text('0')), ('FALSE', V.boolean(False)), ('a blank', V.blank())])):
+                for label, sp in spellings:
+                    args = [V.num(v) for _ in req]
+                    args[i] = sp
+                    try:
+                        got = outcome(args)
+                    except Unmodelled as exc:
+                        raise Unmodelled(f'{f.name} with {label}: {exc}')
+                    if not _same(got, refs[v]):
+                        wrong.append(f'{p.name}={label}: {got!r} instead of {refs[v]!r}')
+            args = [V.num(1) for _ in req]
+            args[i] = V.text('abc')
+            got = outcome(args)
+            if got not in (('error', '#VALUE!'), ('error-class', 'ValueExcelError')):
+                wrong.append(f'{p.name}=the text "abc": {got!r} instead of #VALUE!')
+        ctx.expect(not wrong, f.node, f'{f.name}: every spelling of a numeric argument gives the same outcome',
+                   f'{f.name} depends on how a numeric argument is spelt: ' + '; '.join(wrong[:4]))
+    ctx.note(f'functions not decided (library calls beyond the float model): {", ".join(skipped) or "none"}')
+    ctx.floor(30, 'all-numeric registered functions')
+    if decided < 30:
+        ctx.errors.append(f'C08.9: only {decided} all-numeric functions could be interpreted')
+
+
+def rule_10(ctx):
+    """The arithmetic operators and & as the evaluator calls them, on every ordered pair of representative scalar operands
+    (number, numeric text, non-numeric text, empty text, TRUE, blank, zero): numeric text, booleans and blanks are converted
+    ("3"+1=4, TRUE+1=2, blank+1=1), a non-numeric text gives #VALUE!, a zero divisor #DIV/0!, & joins the text forms; the
+    outcome is always a value or an Excel error value, never a Python exception."""
+    import operator as op_
+    from . import values as V
+    from xlsa.guards import ExcRaised
+
+    def nodate(*a, **k):
+        raise ExcRaised(Ref('builtin:ValueError'))
+    models = {'ext:dateutil.parser.parse': nodate}
+    vals = [('3', V.num(3), 3), ('2.5', V.num(2.5), 2.5), ('"3"', V.text('3'), 3), ('"x"', V.text('x'), None), ('""', V.text(''), None),
+            ('TRUE', V.boolean(True), 1), ('blank', V.blank(), 0), ('0', V.num(0), 0)]
+    n = 0
+    for name, fn in (('OP_ADD', op_.add), ('OP_SUB', op_.sub), ('OP_MUL', op_.mul), ('OP_DIV', op_.truediv)):
+        f = V.registered(ctx, name)
+        wrong = []
+        for la, a, na in vals:
+            for lb, b, nb in vals:
+                out = V.call(ctx, name, [a, b], models=models)
+                got = V.norm(out.value) if out.end == 'return' else ('python exception', V.norm(out.value))
+                if na is None or nb is None:
+                    if name == 'OP_DIV' and nb == 0:
+                        want = None       # a non-numeric text over zero: either error is an Excel error value
+                        ok = got in (('error-class', 'ValueExcelError'), ('error', '#VALUE!'), ('error-class', 'DivZeroExcelError'), ('error', '#DIV/0!'))
+                    else:
+                        want = '#VALUE!'
+                        ok = got in (('error-class', 'ValueExcelError'), ('error', '#VALUE!'))
+                elif name == 'OP_DIV' and nb == 0:
+                    want = '#DIV/0!'
+                    ok = got in (('error-class', 'DivZeroExcelError'), ('error', '#DIV/0!'))
+                else:
+                    want = fn(na, nb)
+                    ok = isinstance(got, tuple) and got[0] == 'Number' and isinstance(got[1], (int, float)) and abs(got[1] - want) < 1e-12
+                n += 1
+                if not ok:
+                    wrong.append(f'{la} {name[3:]} {lb} = {got!r} (expected {want!r})')
+        ctx.expect(not wrong, f.node, f'{name} on every pair of scalar operand kinds',
+                   f'{name}: ' + '; '.join(wrong[:4]))
+    cat = V.registered(ctx, 'CONCAT')
+    wrong = []
+    for la, a, _ in vals:
+        for lb, b, _ in vals:
+            out = V.call(ctx, 'CONCAT', [a, b], models=models)
+            got = V.norm(out.value) if out.end == 'return' else ('python exception', V.norm(out.value))
+            tf = lambda v: '' if v.f['cls'].endswith('Blank') else str(v.f['value'])   # noqa: E731
+            want = ('Text', tf(a) + tf(b))
+            n += 1
+            if got != want:
+                wrong.append(f'{la} & {lb} = {got!r} (expected {want!r})')
+    ctx.expect(not wrong, cat.node, '& joins the text forms of both operands', '&: ' + '; '.join(wrong[:4]))
+    ctx.floor(5, 'operator tables')
+    ctx.note(f'{n} operand pairs evaluated')
+
+
 RULES = [
     ('C08.1', 'annotations are coercing aliases', rule_1),
     ('C08.2', 'cast table', rule_2),
@@ -357,4 +481,6 @@ RULES = [
     ('C08.6', 'registering modules are imported', rule_6),
     ('C08.7', 'signature preservation', rule_7),
     ('C08.8', 'division by a converted zero gives #DIV/0! for every spelling (shared with C07.3)', lambda ctx: c07.rule_3(ctx, only_ops=(ast.Div,))),
+    ('C08.9', 'numeric arguments: every spelling of a value gives the same outcome (through the registered wrapper)', rule_9),
+    ('C08.10', 'arithmetic operators and & on every pair of scalar operand kinds (through the registered wrapper)', rule_10),
 ]
